@@ -10,7 +10,7 @@ use crate::props::common::*;
 use serde_json::{json, Value};
 use std::collections::{BTreeMap, HashSet};
 
-pub const RULE: &str = "random + crafted histories of insert/delete(cuckoo)/union/clear per (filter kind, configuration, hasher, eviction RNG, kick budget); after every operation all keys with net inserts >= 1 are queried; plus long histories on tables of 2^11..2^14 slots / 10^6 bits with sampled sweeps; unions of differently configured filters must panic (as documented) or keep every element of both operands. A history is non-trivial if it contained at least one of: eviction, quotient-filter shift, Full error, union; distinct = distinct (config, op-sequence) hashes";
+pub const RULE: &str = "random + crafted histories of insert/delete(cuckoo)/union/clear per (filter kind, configuration, hasher, eviction RNG, kick budget); after every operation all keys with net inserts >= 1 are queried; plus long histories on tables of 2^11..2^14 slots / 10^6 bits with sampled sweeps; union operands of the cuckoo filter have had elements deleted again in half of the cases (holes in buckets); unions of differently configured filters must panic (as documented) or keep every element of both operands. A history is non-trivial if it contained at least one of: eviction, quotient-filter shift, Full error, union; distinct = distinct (config, op-sequence) hashes";
 pub const ASSUMPTIONS: &[&str] = &[
     "harness hashers/RNGs behave as specified (unit-tested)",
     "cuckoo deletes are only issued for keys with net inserts >= 1, as the property demands",
@@ -121,6 +121,16 @@ fn run_history<F: Flt>(
                     if o.insert(*k).is_ok() {
                         *onet.entry(*k).or_insert(0) += 1;
                     }
+                }
+                // where the filter can delete, about a third of the operand's elements are deleted
+                // again before the union: the operand then has free slots in front of occupied ones
+                if o.has_delete() && ks.len() >= 2 && ks[0] % 2 == 0 {
+                    for k in ks {
+                        if (k.wrapping_mul(0x9E37_79B9_7F4A_7C15) >> 11) % 3 == 0 && onet.get(k).copied().unwrap_or(0) > 0 && Flt::delete(&mut o, *k) == Some(true) {
+                            *onet.get_mut(k).unwrap() -= 1;
+                        }
+                    }
+                    onet.retain(|_, c| *c > 0);
                 }
                 match f.union(&o) {
                     Ok(()) => {
